@@ -9,24 +9,24 @@ from kv import common
 
 # property -> (engine module, per-tier options, floor of distinct non-trivial cases, required counters)
 CACHEMON = {
-    'C01': {'quick': {'cases': 2400, 'budget_s': 50}, 'thorough': {'cases': 60000, 'budget_s': 600},
+    'C01': {'quick': {'cases': 4000, 'budget_s': 50}, 'thorough': {'cases': 60000, 'budget_s': 600},
             'floor': 150, 'req': ['c01_checks']},
-    'C02': {'quick': {'cases': 2400, 'budget_s': 50}, 'thorough': {'cases': 60000, 'budget_s': 600},
+    'C02': {'quick': {'cases': 4000, 'budget_s': 50}, 'thorough': {'cases': 60000, 'budget_s': 600},
             'floor': 150, 'req': ['c02_checks']},
-    'C05': {'quick': {'cases': 2400, 'budget_s': 50}, 'thorough': {'cases': 60000, 'budget_s': 600},
+    'C05': {'quick': {'cases': 4000, 'budget_s': 50}, 'thorough': {'cases': 60000, 'budget_s': 600},
             'floor': 150, 'req': ['c05_checks', 'c05_overflows']},
-    'C06': {'quick': {'cases': 2400, 'budget_s': 50}, 'thorough': {'cases': 60000, 'budget_s': 600},
+    'C06': {'quick': {'cases': 4000, 'budget_s': 50}, 'thorough': {'cases': 60000, 'budget_s': 600},
             'floor': 150, 'req': ['c06_policy_checks_with_choice', 'c06_hit_checks'],
             'anchors': ['lru_compaction', 'safe_lru_compaction', 'lfu_evict', 'mru_evict', 'rr_evict']},
-    'C07': {'quick': {'cases': 2400, 'budget_s': 50}, 'thorough': {'cases': 60000, 'budget_s': 600},
+    'C07': {'quick': {'cases': 4000, 'budget_s': 50}, 'thorough': {'cases': 60000, 'budget_s': 600},
             'floor': 100, 'req': ['c07_drop_hook_evals', 'c07_boundary_checks']},
-    'C15': {'quick': {'cases': 2400, 'budget_s': 50}, 'thorough': {'cases': 60000, 'budget_s': 600},
+    'C15': {'quick': {'cases': 4000, 'budget_s': 50}, 'thorough': {'cases': 60000, 'budget_s': 600},
             'floor': 150, 'req': ['c15_checks', 'c15_mgmt_checks']},
-    'C16': {'quick': {'cases': 1600, 'budget_s': 50}, 'thorough': {'cases': 40000, 'budget_s': 600},
+    'C16': {'quick': {'cases': 2800, 'budget_s': 50}, 'thorough': {'cases': 40000, 'budget_s': 600},
             'floor': 100, 'req': ['c16_raise_checks', 'twin_runs', 'calls_degraded']},
-    'C18': {'quick': {'cases': 1600, 'budget_s': 50}, 'thorough': {'cases': 40000, 'budget_s': 600},
+    'C18': {'quick': {'cases': 2800, 'budget_s': 50}, 'thorough': {'cases': 40000, 'budget_s': 600},
             'floor': 100, 'req': ['c18_introspection_checks', 'twin_runs']},
-    'C20': {'quick': {'cases': 2400, 'budget_s': 50}, 'thorough': {'cases': 40000, 'budget_s': 600},
+    'C20': {'quick': {'cases': 4000, 'budget_s': 50}, 'thorough': {'cases': 40000, 'budget_s': 600},
             'floor': 100, 'req': ['c20_roundtrips', 'c20_lockstep_steps', 'c20_independence_checks',
                                   'c20_continuations_with_eviction', 'c20_cross_process_restores']},
 }
